@@ -133,6 +133,16 @@ class C04(Prop):
                 rec["ret"] = be.p_list(R)
                 rec["m1"] = be.p_list(M)
                 rec["fresh"] = (R is not M) and not _shares(be, R, M)
+                # the caller owns the new map: after it is changed in place, inverting again gives the inverse again
+                n_ = len(scn["m"]) // 2
+                R.rotate_by(be.pauli([2] * n_ + [0]))
+                R.ps[0] = (R.ps[0] + 2) % 4
+                rec2 = {"op": "inverse", "m": scn["m"], "again": True}
+                R2 = M.inverse()
+                rec2["ret"] = be.p_list(R2)
+                rec2["m1"] = be.p_list(M)
+                rec2["fresh"] = (R2 is not M) and (R2 is not R) and not _shares(be, R2, M) and not _shares(be, R2, R)
+                return [rec, rec2]
             elif k == "compose":
                 rec["a"], rec["b"] = scn["a"], scn["b"]
                 A, B = be.cmap(scn["a"]), be.cmap(scn["b"])
@@ -140,6 +150,15 @@ class C04(Prop):
                 rec["ret"] = be.p_list(R)
                 rec["a1"], rec["b1"] = be.p_list(A), be.p_list(B)
                 rec["fresh"] = (R is not A) and (R is not B) and not _shares(be, R, A) and not _shares(be, R, B)
+                n_ = len(scn["a"]) // 2
+                R.rotate_by(be.pauli([1] * n_ + [2]))
+                R.ps[0] = (R.ps[0] + 2) % 4
+                rec2 = {"op": "compose", "a": scn["a"], "b": scn["b"], "again": True}
+                R2 = A.compose(B)
+                rec2["ret"] = be.p_list(R2)
+                rec2["a1"], rec2["b1"] = be.p_list(A), be.p_list(B)
+                rec2["fresh"] = (R2 is not R) and not _shares(be, R2, R) and not _shares(be, R2, A) and not _shares(be, R2, B)
+                return [rec, rec2]
             elif k == "assoc":
                 rec["a"], rec["b"], rec["c"] = scn["a"], scn["b"], scn["c"]
                 A, B, C = be.cmap(scn["a"]), be.cmap(scn["b"]), be.cmap(scn["c"])
